@@ -584,6 +584,9 @@ class Interp(ExprMixin):
             rec["kind"] = "release"
             self.lock_events.append(rec)
             lk = (cls, key)
+            rec["held"] = lk in st.held_must
+            rec["held_may"] = lk in st.held_may
+            rec["handling"] = st.handling
             probes = frozenset((c, k, h - {lk}) for (c, k, h) in st.probes)
             st = st.set(held_must=st.held_must - {lk}, held_may=st.held_may - {lk}, probes=probes)
             rec["after"] = st
